@@ -944,8 +944,78 @@ pub fn args() -> BoxedStrategy<Args> {
         .boxed()
 }
 
+thread_local! {
+    static ORACLES: std::cell::RefCell<std::collections::HashMap<String, Option<std::rc::Rc<crate::props::c15::tzif::Oracle>>>> = Default::default();
+}
+fn oracle_of(name: &str) -> Option<std::rc::Rc<crate::props::c15::tzif::Oracle>> {
+    ORACLES.with(|m| {
+        m.borrow_mut()
+            .entry(name.to_string())
+            .or_insert_with(|| {
+                if name.is_empty() || name.contains("..") {
+                    return None;
+                }
+                crate::props::c15::tzif::Oracle::read("/usr/share/zoneinfo", name).ok().map(std::rc::Rc::new)
+            })
+            .clone()
+    })
+}
+
+/// One case in three with a rule-based zone is moved onto one of the zone's transitions: the receiver instant within
+/// a day of it (or exactly on it, +-1 ns) and the receiver date = the local day on which it happens. For real zones
+/// the transition is a listed one or a POSIX-footer transition of a year up to 275000 (log-uniform), so that the
+/// day-of-transition paths (skipped / repeated midnight, start of day, hours in day) are also reached in the far
+/// future, where nanosecond counts no longer fit 64 bits.
+fn align_to_transition(mut c: Case, pick: u8, yr: u32, place: u8, dsec: i64) -> Case {
+    if pick % 3 != 0 {
+        return c;
+    }
+    // (utc second of the transition, offset before it)
+    let ev: Option<(i64, i64)> = match &c.a.zone {
+        ZoneArg::Table(z) if !z.trans.is_empty() => {
+            let i = yr as usize % z.trans.len();
+            Some((z.trans[i].0, if i == 0 { z.initial } else { z.trans[i - 1].1 }))
+        }
+        ZoneArg::Named(name) => oracle_of(name).and_then(|o| {
+            let listed = &o.file.times;
+            if pick % 2 == 0 && !listed.is_empty() {
+                let i = yr as usize % listed.len();
+                let before = if i == 0 { o.file.types[0].utoff } else { o.file.types[o.file.idx[i - 1]].utoff };
+                Some((listed[i], before))
+            } else {
+                // log-uniform year in 2038..=275000
+                let span = (275_000f64 / 2038f64).ln();
+                let y = (2038f64 * ((yr as f64 / u32::MAX as f64) * span).exp()) as i64;
+                let evs = o.footer_events(y.clamp(2038, 275_000));
+                if evs.is_empty() {
+                    None
+                } else {
+                    let e = evs[place as usize % evs.len()];
+                    Some((e.0, e.1))
+                }
+            }
+        }),
+        _ => None,
+    };
+    let Some((t, before)) = ev else { return c };
+    let delta: i128 = match place % 6 {
+        0 => 0,
+        1 => -1,
+        2 => 1,
+        3 => dsec as i128 * 1_000_000_000 / 24,
+        _ => dsec as i128 * 1_000_000_000,
+    };
+    let max = 8_640_000_000_000_000_000_000i128;
+    c.a.inst1 = (t as i128 * 1_000_000_000 + delta).clamp(-max, max);
+    let local_day = (t + before).div_euclid(86_400);
+    c.a.day1 = (local_day + (place as i64 / 6) % 2).clamp(MIN_DAY, MAX_DAY);
+    c
+}
+
 pub fn case() -> BoxedStrategy<Case> {
-    (0u16..N_OPS, args()).prop_map(|(op, a)| Case { op, a }).boxed()
+    (0u16..N_OPS, args(), (any::<u8>(), any::<u32>(), any::<u8>(), -86_400i64..=86_400))
+        .prop_map(|(op, a, (pick, yr, place, dsec))| align_to_transition(Case { op, a }, pick, yr, place, dsec))
+        .boxed()
 }
 
 /// observational calendars take seconds per conversion far from the present (a liveness concern that is
@@ -968,7 +1038,7 @@ pub fn tame(mut c: Case) -> Case {
 }
 
 pub fn run(ctx: &mut Ctx) {
-    ctx.rule = format!("structured op universe: {} operations covering the constructors, from_partial/with, arithmetic, differences, rounding, conversions, getters (every calendar), to-string/from-string of every public type, Duration round/total/compare with every kind of relativeTo, ZonedDateTime over fixed offsets, synthetic rule tables, shaped tables and every real IANA zone of the bundled provider (incl. instants after 2037 and garbage identifiers), option helpers, identifier/enum parsers, Now::*_with_system_info, a sample of temporal_capi functions (all of them run under panic capture in C19) and multi-step chains; arguments are raw (full i32/u8/u16/i128 ranges, any finite double incl. 1e300 and non-integral values, every unit/mode/option incl. Unit::Auto in every slot, increments up to u32::MAX, strings from templates + mutations + arbitrary) and receivers are valid values biased to the limits. A case fails iff it panics (caught, signature = location), returns ErrorKind::Assert, or exceeds the 60 s watchdog (exit 2). non-trivial = at least one boundary-class value or non-default option; distinct by case hash.", N_OPS);
+    ctx.rule = format!("structured op universe: {} operations covering the constructors, from_partial/with, arithmetic, differences, rounding, conversions, getters (every calendar), to-string/from-string of every public type, Duration round/total/compare with every kind of relativeTo, ZonedDateTime over fixed offsets, synthetic rule tables, shaped tables and every real IANA zone of the bundled provider (incl. instants after 2037 and garbage identifiers; one case in three with a rule-based zone sits on / within a day of one of the zone's transitions - listed ones and POSIX-footer ones up to the year 275000 - with the receiver date on the transition's local day), option helpers, identifier/enum parsers, Now::*_with_system_info, a sample of temporal_capi functions (all of them run under panic capture in C19) and multi-step chains; arguments are raw (full i32/u8/u16/i128 ranges, any finite double incl. 1e300 and non-integral values, every unit/mode/option incl. Unit::Auto in every slot, increments up to u32::MAX, strings from templates + mutations + arbitrary) and receivers are valid values biased to the limits. A case fails iff it panics (caught, signature = location), returns ErrorKind::Assert, or exceeds the 60 s watchdog (exit 2). non-trivial = at least one boundary-class value or non-default option; distinct by case hash.", N_OPS);
     ctx.assumptions = vec![
         "observational/lunisolar calendars are exercised within ISO years +-8000 here (beyond that single conversions take seconds; the far range is sampled in C16 and reported there)".into(),
         "'loops without bound' is only observable as the watchdog timeout, reported as exit 2 (inconclusive)".into(),
